@@ -3,7 +3,9 @@ TD = dict(overlays=['contracts/thrift_decode.ovl'], harness='harness/C08/thrift.
           extra_sources=['stubs/mem_stubs.c', 'stubs/thrift_stubs.c'],
           trusted=['stubs/thrift_stubs.c: strncpy(dst,src,n) only makes dst[0..n) arbitrary'])
 
-WIP = True
+# every job below was seen `ok` on the unchanged tree AND failing on a deliberately broken scratch copy
+# (mutation sets in the author's report); the three former finding jobs carry a note naming the /repo fix
+WIP = False
 FZ_SKIP = dict(kind='fuzz', harness='replay/fz/thrift_skip.c', max_len=48, secs=20,
                sources=['src/thrift/thrift_decode.c', 'src/core/buffer.c'])
 SKIP_CALLEES = ['thrift_skip__rec', 'thrift_read_varint', 'thrift_read_binary', 'thrift_read_list_begin',
@@ -46,11 +48,17 @@ JOBS = [
     # recursion depth: one thrift_skip frame per struct nesting level at most (ghost cqv_skip_depth)
     dict(td('skip_depth', 'h_td_skip', 'thrift_skip', SKIP_CALLEES, min_loop_obligations=3, est_s=60,
             defines=['CQV_SKIP_DEPTH=1'],
+            note='was a FINDING (unbounded recursion through LIST/SET/MAP, ASan stack-overflow on 2^20 bytes 0x19); '
+                 'repaired by /repo c4710ce (containers count against THRIFT_MAX_NESTING); fails again when that '
+                 'commit is reverted in a scratch copy',
             replayer=dict(kind='direct', harness='replay/direct/thrift_skip_depth.c', vars={},
                           sources=['src/thrift/thrift_decode.c', 'src/core/buffer.c'])), name='c04_thrift_skip_depth', props=['C04']),
     # exact consumption per wire type (fixed-width scalars, list/set of fixed-width elements)
-    dict(td('skip_exact', 'h_td_skip', 'thrift_skip', SKIP_CALLEES, min_loop_obligations=3, est_s=60,
-            defines=['CQV_SKIP_EXACT=1'], replayer=FZ_SKIP), name='c13_thrift_skip_exact', props=['C13']),
+    dict(td('skip_exact', 'h_td_skip', 'thrift_skip', SKIP_CALLEES, min_loop_obligations=3, est_s=120,
+            defines=['CQV_SKIP_EXACT=1'], replayer=FZ_SKIP,
+            note='was a FINDING (bool container elements consumed 0 bytes; truncated BYTE/DOUBLE/UUID skipped '
+                 'silently); repaired by /repo 42f5340 and 0d3a776; now also covers map<fixed K, fixed V>; fails '
+                 'again when either fix is disabled in a scratch copy'), name='c13_thrift_skip_exact', props=['C13']),
     td('skip_field', 'h_td_skip_field', 'thrift_skip_field', ['thrift_skip']),
 ]
 
@@ -81,11 +89,15 @@ JOBS += [
     te('bool', 'h13_bool', ['thrift_write_bool', 'thrift_read_bool']),
     te('binary', 'h13_binary', ['thrift_write_binary', 'thrift_read_binary'], level='bounded',
        bound='payload length <= 16 bytes (all contents); all lengths are covered by c13_thrift_binary_len'),
-    te('binary_len', 'h13_binary_len', ['thrift_write_binary', 'thrift_read_binary'], tier='thorough', timeout=1200, est_s=400),
+    te('binary_len', 'h13_binary_len', ['thrift_write_binary', 'thrift_read_binary'], tier='thorough', timeout=1200, est_s=400, wip=True,
+       note='ok in 366 s on the unchanged tree; NOT validated: the breakage run (length & 0xFFFFFF in the writer) '
+            'ended undecided after 323 s, cbmc out of memory in the proof run'),
     te('uuid', 'h13_uuid', ['thrift_write_uuid', 'thrift_read_uuid']),
     te('field_header_roundtrip', 'h13_field_header_roundtrip',
        ['thrift_write_field_header', 'thrift_read_field_begin', 'thrift_read_bool']),
     te('field_header_form', 'h13_field_header_form', ['thrift_write_field_header'],
+       note='was a FINDING (int16 wrap-around of field_id - last_id chose the short form, e.g. last 32765, id -32767); '
+            'repaired by /repo 1aa5bb7; fails again when that commit is reverted in a scratch copy',
        replayer=dict(kind='direct', harness='replay/direct/thrift_field_header.c',
                      sources=['src/thrift/thrift_encode.c', 'src/core/buffer.c'],
                      vars={'nl': 'nl', 'last': 'last', 'fid': 'fid', 'type': 'type'})),
